@@ -15,12 +15,20 @@ pub fn cmd_utf16(args: &[String]) {
     let stdout = std::io::stdout();
     let mut w = std::io::BufWriter::new(stdout.lock());
     let (mut cases, mut runs, mut viol, mut nontrivial, mut skipped) = (0u64, 0u64, 0u64, 0u64, 0u64);
-    for id in 0..n {
-        let (p, f) = gen_pattern(&mut r);
+    // a fixed family first: case-insensitive backreferences, literals and classes over texts made of fold partners
+    // (the text side is folded at match time by the input type, so every input type must fold the same way)
+    const FAM_PATS: &[&str] = &["(.)\\1", "(?<=\\1(.))", "(\\w)\\1", "(.)(.)\\2\\1", "(k)\\1", "(s)\\1+", "(?<a>.)\\k<a>", "\\bk\\b", "[a-z]{2}", "[^a-z]{2}", "\\w\\W", "(\u{3c3})\\1", "(\u{df})\\1", "(?:(.)\\1)+$"];
+    const FAM_FLAGS: &[&str] = &["i", "iu", "iv", "", "u"];
+    const FAM_HAYS: &[&str] = &["\u{212A}k", "k\u{212A}", "Kk\u{212A}", "s\u{17F}", "\u{17F}s", "S\u{17F}s", "\u{DF}\u{1E9E}", "\u{1E9E}\u{DF}", "\u{3c3}\u{3c2}", "\u{3a3}\u{3c2}\u{3c3}\u{3a3}",
+        "\u{1c5}\u{1c6}\u{1c4}", "\u{130}i", "\u{131}I", "aA\u{212A}Kk", "\u{f9}\u{d9}", "\u{436}\u{416}", "\u{e5}\u{212b}", "\u{212b}\u{c5}", "\u{3b9}\u{1fbe}\u{345}", "\u{1e61}\u{1e9b}", " \u{212A} ", "\u{3a9}\u{2126}"];
+    let fam: Vec<(String, String)> = FAM_PATS.iter().flat_map(|p| FAM_FLAGS.iter().map(move |f| (p.to_string(), f.to_string()))).collect();
+    for id in 0..(n + fam.len() as u64) {
+        let is_fam = (id as usize) < fam.len();
+        let (p, f) = if is_fam { fam[id as usize].clone() } else { gen_pattern(&mut r) };
         let Ok(re) = Regex::with_flags(&p, f.as_str()) else { continue };
         cases += 1;
-        for _ in 0..4 {
-            let t = gen_hay(&mut r, false);
+        for hk in 0..(if is_fam { FAM_HAYS.len() } else { 4 }) {
+            let t = if is_fam { FAM_HAYS[hk].to_string() } else { gen_hay(&mut r, false) };
             // offset maps between the encodings (char boundaries only)
             let mut u8_of_u16 = vec![];
             let mut u16_of_u8 = std::collections::HashMap::new();
